@@ -477,6 +477,12 @@ macro_rules! field_bisim {
             ("mul_add", |a, b| ComplexField::mul_add(a.clone(), b, a)),
             // a constant addend: x * y - 1 with real parts whose product rounds (0.1 * 10): a fused and a
             // two-step evaluation differ in the last bit, so the real part shows which path an encoding took
+            // in-place overwrite: afterwards the receiver is the source, whatever it held before
+            ("clone_from", |a, b| {
+                let mut r = a;
+                r.clone_from(&b);
+                r
+            }),
             ("mul_add(x,y,-1)", |a, b| ComplexField::mul_add(a, b, <D as From<$f>>::from(-1.0))),
             ("atan2", |a, b| RealField::atan2(a, b)),
             ("min", |a, b| RealField::min(a, b)),
